@@ -35,6 +35,11 @@ def build():
     h.root('rotate_point_b3', g + '(a: &%s, b: Point3<S>) -> Point3<S>' % B3, 'Rotation::rotate_point(a, b)', ('value', A.matvec(b, v)))
     h.root('one_b3', g + '() -> ' + B3, '<%s as One>::one()' % B3, ('value', A.identity(3)))
     # statement-level compositions on the code itself: rotating by q, by its matrices, by its basis
+    # rotating v by q itself, in both spellings (the formula is C04's; here it is one of the things that must agree)
+    qq = sq('a0')
+    vv = sv('a1', 3)
+    h.root('rot_q', g + '(a: &%s, b: %s) -> %s' % (Q, V, V), 'Rotation::rotate_vector(a, b)', ('value', specs.qrot(qq, vv)))
+    h.root('rot_q_mul', g + '(a: %s, b: %s) -> %s' % (Q, V, V), 'a * b', ('value', specs.qrot(qq, vv)))
     h.root('rot_via_m3', g + '(a: %s, b: %s) -> %s' % (Q, V, V), 'Matrix3::from(a) * b', ('rot_unit',))
     h.root('rot_via_b3', g + '(a: %s, b: %s) -> %s' % (Q, V, V), 'Basis3::from(a).rotate_vector(b)', ('rot_unit',))
     h.root('rot_via_m4', g + '(a: %s, b: %s) -> %s' % (Q, V, V), 'Transform::<Point3<S>>::transform_vector(&Matrix4::from(a), b)', ('rot_unit',))
@@ -222,8 +227,9 @@ def run(tier):
     run = Run(PROP, tier, 'proof')
     specs.selfcheck()
     h = build()
+    msyn = h.monomorphise(['f32', 'f64'], bound='<S: BaseFloat>', kinds=None, method_syntax='only', soft=True)
     S, inv, meta = facts.extract(PROP, h.src())
-    report_dropped(run, meta)
+    report_dropped(run, meta, h)
     run_specs(run, S, h, custom={'qmat': check_qmat, 'mat2quat': check_mat2quat, 'rot_unit': check_rot_unit, 'compose': check_compose})
     run.floor('roots', len(run.roots), len(h.specs))
     return run.finish(
